@@ -13,7 +13,8 @@ def expected_sig(sig_in, opts):
     marker = opts.get('truncate_char', '[...]')
     for tn, val in sig_in:
         if tn.startswith('Comment'):
-            if opts.get('strip_comments') and not tn.endswith('.Hint'):
+            # an optimizer hint is recognised by how it is written, not by how the lexer typed it
+            if opts.get('strip_comments') and not val.startswith(('/*+', '--+', '# +')):
                 continue
             out.append(val)
             continue
@@ -124,6 +125,7 @@ def _mk_eval(optsets):
 def optsets(tier):
     t1 = [o for o in options.sets_within(options.TARGETED, 1) if o]
     t1.append({'truncate_strings': 3, 'truncate_char': '~'})
+    t1.append({'truncate_strings': 3, 'truncate_char': ''})          # an empty marker is a legitimate value
     reps = [{'strip_comments': True}, {'keyword_case': 'upper'}, {'identifier_case': 'upper'},
             {'truncate_strings': 5}, {'keyword_case': 'capitalize', 'identifier_case': 'lower'}]
     lays = [{'reindent': True}, {'strip_whitespace': True, 'use_space_around_operators': True},
